@@ -202,3 +202,22 @@ Example ex_scan_imm :
              Unbounded Unbounded [ONext; ONext; ONext; OPrev; OPrev; OPrev]) =
     [None; Some e3; Some e5; None; Some e5; Some e3; None].
 Proof. vm_compute. split; reflexivity. Qed.
+
+(* ---- the defect F1 (repaired in db4381b), for the record: the nesting the code built BEFORE the
+   repair pruned every component on its own, so the tombstone in the newer component was dropped
+   before it could shadow the put in the older one.  `put 1; flush; del 1`: the old shape lists
+   the deleted key, the repaired shape (scan_expr) and live_spec do not. *)
+Definition f1_ops : list History.op :=
+  [ OWrite [([1], Some [10])]%N; OFlush 100 50; OWrite [([1]%N, None)] ].
+Definition f1_store : store := History.run (init_at 0) f1_ops.
+Definition f1_old_shape (s : store) (lo hi : bound) : expr :=
+  EBounds lo hi
+    (EMerge [EBounds lo hi (EPrune (seq s) (ETable (table (sort_entries (mem s)))));
+             EMerge (map (fun f => EPrune (seq s) (lazy_file f)) (hd [] (ver s)))]).
+Example f1_old_shape_lists_deleted_key :
+  all_accepted (init_at 0) f1_ops = true /\
+  spec_of (f1_old_shape f1_store Unbounded Unbounded) = [mkE [1]%N 1 (Some [10]%N)] /\
+  spec_of (scan_expr f1_store Unbounded Unbounded) = [] /\
+  live_spec f1_store Unbounded Unbounded = [] /\
+  map fst (run_scan f1_store Unbounded Unbounded [ONext; ONext]) = [None; None; None].
+Proof. vm_compute. repeat split; reflexivity. Qed.
